@@ -623,6 +623,13 @@ func checkC10(c *Ctx) *report.Result {
 		carryCase("59:59, hours 0-22: hours advance", iv{59, 59}, iv{59, 59}, iv{0, 22}, any512, "0", "0", "+1", "same", "same")
 		carryCase("23:59:59, days 0-510: days advance", iv{59, 59}, iv{59, 59}, iv{23, 23}, iv{0, 510}, "0", "0", "0", "+1", "same")
 		carryCase("23:59:59 on day 511: days wrap and the day-carry flag is set", iv{59, 59}, iv{59, 59}, iv{23, 23}, iv{511, 511}, "0", "0", "0", "0", "set")
+		// values a program wrote beyond the carry thresholds count on to the end of their register (6/6/5 bits) and wrap
+		// to zero there without carrying: the registers are exactly that wide
+		carryCase("seconds 60-62 (written by the program): only seconds advance", iv{60, 62}, any60, any24, any512, "+1", "same", "same", "same", "same")
+		carryCase("seconds 63: wraps to 0 without a carry into the minutes", iv{63, 63}, any60, any24, any512, "0", "same", "same", "same", "same")
+		carryCase("59 seconds, minutes 63: minutes wrap to 0 without a carry into the hours", iv{59, 59}, iv{63, 63}, any24, any512, "0", "0", "same", "same", "same")
+		carryCase("59:59, hours 24-30: hours advance without a carry", iv{59, 59}, iv{59, 59}, iv{24, 30}, any512, "0", "0", "+1", "same", "same")
+		carryCase("59:59, hours 31: hours wrap to 0 without a carry into the days", iv{59, 59}, iv{59, 59}, iv{31, 31}, any512, "0", "0", "0", "same", "same")
 	}
 
 	// through the decoder with the MBC3 controller, RAM window enabled
@@ -824,9 +831,23 @@ func checkC10(c *Ctx) *report.Result {
 				if strings.HasPrefix(p, ".l") && p != ".low" {
 					need(false, "stores the latched register "+p)
 				}
+				if p == ".ticks" && reg != 0x08 {
+					need(false, "changes the sub-second count (only a seconds write restarts the second; halting and releasing keep the elapsed part)")
+				}
 			}
 			r.Ob("T-write", ok, name, hpos(ev), strings.Join(why, "; "))
 		}
+	}
+	// the constructed machine: clock running from zero, latch not armed (a lone 1 written first latches nothing)
+	{
+		init := it.StateOn(c.W.InitHeap)
+		var bad []string
+		for _, p := range c.boolCellsOf(rtc) {
+			if b, isc := boolConst(c.cellBool(init, rtc, p)); !isc || b {
+				bad = append(bad, fmt.Sprintf("%s = %s", p, ai.ValueString(c.cellBool(init, rtc, p))))
+			}
+		}
+		r.Ob("T-latch", len(bad) == 0, "after construction the latch is not armed and the clock is not halted", "", fmt.Sprintf("boolean cells of the clock that are not false in the constructed machine: %v", bad))
 	}
 	r.Rule("T-step", "the clock's tick is reached once per machine cycle whatever the CPU is doing: the frame loop calls the memory step once per iteration (L2 of C26) and the memory step calls the tick once, unconditionally (L4)")
 	adopt(r, c.sibling("C26"), map[string]string{"L2": "T-step", "L4": "T-step"}, "a tick that is skipped while the CPU sleeps, or batched, does not advance the clock once per machine cycle", func(f report.Finding) bool {
